@@ -52,6 +52,7 @@ static void c_Lf(Res *res) { prep(); int r = sprintf_p(cd, 64, BOSU, "%Lf|tail",
 static void c_Le(Res *res) { prep(); int r = sprintf_p(cd, 64, BOSU, "%Le|tail", (long double)2.5); CRES(r); }
 static void c_La(Res *res) { prep(); int r = sprintf_p(cd, 64, BOSU, "%La|tail", (long double)2.5); CRES(r); }
 static void c_a(Res *res) { prep(); int r = sprintf_p(cd, 64, BOSU, "%a|tail", 2.5); CRES(r); }
+static void c_Lf_wide(Res *res) { prep(); int r = sprintf_p(cd, 200, BOSU, "%120.3Lf|%-90La|%ls", (long double)2.5, (long double)1.0, L"w"); CRES(r); }
 static void c_Lf_ls(Res *res) { prep(); int r = sprintf_p(cd, 64, BOSU, "%Lf|%ls|%a|", (long double)1.25, L"xy", 3.0); CRES(r); }
 static void c_sw_nospc(Res *res) { prep(); int r = swprintf_p(wd, 4, BOSU, L"%d", 1234567); WRES(r); }
 static void c_sw_nospc_big(Res *res) { prep(); int r = swprintf_p(wd, 600, BOSU, L"%0700d", 7); WRES(r); }
@@ -65,7 +66,7 @@ static void c_fprintf_ls(Res *res) { char *mb = NULL; size_t ml = 0; tracking = 
 
 static struct { const char *name; void (*fn)(Res *); } cases[] = {
     { "sprintf_ls", c_ls }, { "sprintf_ls_unconvertible", c_ls_bad }, { "sprintf_ls2", c_ls2 }, { "snprintf_ls_trunc", c_ls_trunc }, { "sprintf_Lf", c_Lf }, { "sprintf_Le", c_Le },
-    { "sprintf_La", c_La }, { "sprintf_a", c_a }, { "sprintf_Lf_ls_a", c_Lf_ls }, { "swprintf_nospc", c_sw_nospc }, { "swprintf_nospc_big", c_sw_nospc_big },
+    { "sprintf_La", c_La }, { "sprintf_a", c_a }, { "sprintf_Lf_ls_a", c_Lf_ls }, { "sprintf_Lf_wide_field", c_Lf_wide }, { "swprintf_nospc", c_sw_nospc }, { "swprintf_nospc_big", c_sw_nospc_big },
     { "snwprintf_nospc_big", c_snw_nospc_big }, { "wcsnorm_long", c_norm_long }, { "wcsnorm_marks_nfc", c_norm_marks }, { "wcsnorm_marks_nfd", c_norm_marks2 },
     { "wcsicmp", c_icmp }, { "wcsnatcmp_fold", c_natcmp }, { "fprintf_ls_Lf", c_fprintf_ls },
 };
